@@ -218,7 +218,7 @@ func runC19(cfg Config, args []string) int {
 		return Finish(rep)
 	}
 	// ---- second half: the same model observed in the generated code (skipsim)
-	b := &Batch[SkipCase]{Property: "C19", Level: "exploration", Cfg: cfg, Env: env, N: cfg.N(128, 3000),
+	b := &Batch[SkipCase]{Property: "C19", Level: "exploration", Cfg: cfg, Env: env, N: cfg.N(192, 3000),
 		Gen:      func(i int) SkipCase { return genSkipCase(cfg, i) },
 		Exec:     func(c SkipCase) CaseResult { return execSkip(env, c) },
 		Shrink:   shrinkSkip,
